@@ -392,7 +392,7 @@ def map_collect_expr_to_loop(s, rewrites=None):
         e, kind, x = re.sub(r'\s+', '', m.group(1)), m.group(2), m.group(3)
         op = s.rfind('(', m.start(), m.end())
         cp = _match(s, op, '(', ')')
-        tail = re.match(r'\s*\.\s*collect(::<\s*(Vec<.*?>)\s*>)?\(\)', s[cp + 1:], re.S)
+        tail = re.match(r'\s*\.\s*collect(::<\s*((?:Vec|HashSet)<.*?>)\s*>)?\(\)', s[cp + 1:], re.S)
         if not tail:
             pos = m.end()
             continue
@@ -400,13 +400,16 @@ def map_collect_expr_to_loop(s, rewrites=None):
         if re.search(r'\breturn\b|\?', body):
             raise Undecided('unsupported construct: map closure with early exit (D19 not applicable)')
         ty = (': ' + tail.group(2)) if tail.group(2) else ''
+        is_set = bool(tail.group(2)) and tail.group(2).startswith('HashSet')
         ls = s.rfind('\n', 0, m.start()) + 1
         ind = re.match(r'[ \t]*', s[ls:]).group(0) + '    '
         src = e if kind == 'iter' else 'src_%d' % n
         pre = '' if kind == 'iter' else '%slet src_%d = %s.values();\n' % (ind, n, e)
-        new = ('{\n' + pre + '%(i)slet mut coll_%(n)d%(ty)s = Vec::new();\n%(i)slet mut idx_%(n)d: usize = 0;\n'
+        new = ('{\n' + pre + '%(i)slet mut coll_%(n)d%(ty)s = %(ctor)s::new();\n%(i)slet mut idx_%(n)d: usize = 0;\n'
                '%(i)swhile idx_%(n)d < %(src)s.len() {\n%(i)s    let %(x)s = &%(src)s[idx_%(n)d];\n%(i)s    let item_%(n)d = %(b)s;\n'
-               '%(i)s    coll_%(n)d.push(item_%(n)d);\n%(i)s    idx_%(n)d += 1;\n%(i)s}\n%(i)scoll_%(n)d }') % dict(i=ind, n=n, ty=ty, src=src, x=x, b=body)
+               '%(i)s    %(add)s\n%(i)s    idx_%(n)d += 1;\n%(i)s}\n%(i)scoll_%(n)d }') % dict(
+                   i=ind, n=n, ty=ty, src=src, x=x, b=body, ctor='HashSet' if is_set else 'Vec',
+                   add=('let _ = coll_%d.insert(item_%d);' % (n, n)) if is_set else ('coll_%d.push(item_%d);' % (n, n)))
         if rewrites is not None:
             rewrites.append('D19 map/collect expression over %s.%s()' % (e, kind))
         s = s[:m.start()] + new + s[cp + 1 + tail.end():]
@@ -454,6 +457,71 @@ def format_to_env(s, rewrites=None):
         if rewrites is not None:
             rewrites.append('D26 format! text not modelled')
         s = s[:m.start()] + 'format_text()' + s[cp + 1:]
+
+
+def instantiate_generic(fn_text, param, concrete, rewrites=None):
+    """D13 (general form): a function generic in one type parameter `fn f<P>(..) where P: Bounds` is instantiated at the
+    concrete type the unit names (the call sites under contract use it at that type): the parameter list `<P>` and the
+    where clause go, `P` in the signature becomes the concrete type. The body is untouched (`x.into()`, `x.clone()` then
+    resolve to the concrete type's own methods)."""
+    i = body_open(fn_text)
+    sig, body = fn_text[:i], fn_text[i:]
+    sig2 = re.sub(r'(fn \w+)<' + param + r'>', r'\1', sig, count=1)
+    if sig2 == sig:
+        return fn_text
+    sig2 = re.sub(r'\bwhere\s+' + param + r'\s*:[^{;]*$', '', sig2, flags=re.S).rstrip() + '\n    '
+    sig2 = re.sub(r'\b' + param + r'\b', concrete, sig2)
+    if rewrites is not None:
+        rewrites.append('D13 %s instantiated at %s' % (param, concrete))
+    return sig2 + body
+
+
+def difference_for_each_to_loop(s, rewrites=None):
+    """D21 (set difference form): the statement `A.difference(&B).for_each(|x| { BODY });` over two local HashSets becomes
+        let mut idx_x: usize = 0;
+        while idx_x < iter_len(&A) { let x = iter_nth(&A, idx_x); if !B.contains(x) { BODY } idx_x += 1; }
+    (Difference yields the elements of A that are not in B, in A's iteration order, each once)."""
+    rx = re.compile(r'^([ \t]*)(\w+)\s*\.difference\(&(\w+)\)\s*\.for_each\(\|(\w+)\|\s*\{', re.M)
+    while True:
+        m = rx.search(s)
+        if not m:
+            return s
+        ind, a, b, x = m.group(1), m.group(2), m.group(3), m.group(4)
+        i = 'idx_' + x
+        ob = m.end() - 1
+        cb = _match(s, ob, '{', '}')
+        body = s[ob + 1:cb]
+        tail = re.match(r'\s*\)\s*;', s[cb + 1:])
+        if not tail or re.search(r'\b(continue|return|break)\b|\?', body):
+            raise Undecided('unsupported construct: D21 not applicable to for_each over %s.difference(&%s)' % (a, b))
+        new = ('%(d)slet mut %(i)s: usize = 0;\n%(d)swhile %(i)s < iter_len(&%(a)s) {\n%(d)s    let %(x)s = iter_nth(&%(a)s, %(i)s);\n'
+               '%(d)s    if !%(b)s.contains(%(x)s) {%(body)s\n%(d)s    }\n%(d)s    %(i)s += 1;\n%(d)s}') % dict(d=ind, i=i, a=a, b=b, x=x, body=body.rstrip())
+        if rewrites is not None:
+            rewrites.append('D21 for_each over %s.difference(&%s)' % (a, b))
+        s = s[:m.start()] + new + s[cb + 1 + tail.end():]
+
+
+def set_for_each_to_loop(s, rewrites=None):
+    """D21 (set form): the statement `S.into_iter().for_each(|x| { BODY });` over a local HashSet S that is not used afterwards
+    becomes the loop over iter_len(&S) / iter_nth(&S, i) (the elements in iteration order, each once; BODY sees a reference)."""
+    rx = re.compile(r'^([ \t]*)(\w+)\s*\.into_iter\(\)\s*\.for_each\(\|(\w+)\|\s*\{', re.M)
+    while True:
+        m = rx.search(s)
+        if not m:
+            return s
+        ind, v, x = m.group(1), m.group(2), m.group(3)
+        i = 'idx_' + x
+        ob = m.end() - 1
+        cb = _match(s, ob, '{', '}')
+        body = s[ob + 1:cb]
+        tail = re.match(r'\s*\)\s*;', s[cb + 1:])
+        if not tail or re.search(r'\b(continue|return|break)\b|\?', body) or re.search(r'\b' + v + r'\b', s[cb:]):
+            raise Undecided('unsupported construct: D21 not applicable to for_each over the set %s' % v)
+        new = ('%(d)slet mut %(i)s: usize = 0;\n%(d)swhile %(i)s < iter_len(&%(v)s) {\n%(d)s    let %(x)s = iter_nth(&%(v)s, %(i)s);%(body)s\n'
+               '%(d)s    %(i)s += 1;\n%(d)s}') % dict(d=ind, i=i, v=v, x=x, body=body.rstrip())
+        if rewrites is not None:
+            rewrites.append('D21 for_each over the set %s' % v)
+        s = s[:m.start()] + new + s[cb + 1 + tail.end():]
 
 
 def position_to_loop(s, rewrites=None):
@@ -754,6 +822,29 @@ def splice_body_start(fn_text, ghost):
         raise Undecided('refusing to splice non-ghost text')
     i = body_open(fn_text)
     return fn_text[:i + 1] + '\n' + ghost.rstrip() + fn_text[i + 1:]
+
+
+def splice_body_end(fn_text, ghost):
+    """S1: insert a ghost block at the end of the fn body: after the last statement, or before the tail expression when the
+    body ends in one (the position is found structurally, not by the text of the statement)."""
+    if not _GHOST_OK.match(ghost):
+        raise Undecided('refusing to splice non-ghost text')
+    ob = body_open(fn_text)
+    cb = _match(fn_text, ob, '{', '}')
+    lines = fn_text[ob + 1:cb].rstrip().split('\n')
+    k = len(lines) - 1
+    while k >= 0 and not lines[k].strip():
+        k -= 1
+    last = lines[k].strip() if k >= 0 else ''
+    base = len(lines[k]) - len(lines[k].lstrip()) if k >= 0 else 8
+    if last.endswith(';') or last.endswith('}') or not last:
+        # ends in a statement (or in a block: `if .. {} else {}` as the unit-typed tail counts as a statement here only
+        # when the function returns nothing — the caller knows)
+        return fn_text[:ob + 1] + '\n'.join(lines[:k + 1]) + '\n' + ghost.rstrip() + '\n' + fn_text[cb - (len(fn_text[:cb]) - len(fn_text[:cb].rstrip(' \t'))):]
+    # a single-line tail expression: the ghost block goes before it
+    if last.count('(') != last.count(')') or base == 0:
+        raise Undecided('unsupported construct: cannot place a ghost block before a multi-line tail expression')
+    return fn_text[:ob + 1] + '\n'.join(lines[:k]) + '\n' + ghost.rstrip() + '\n' + lines[k] + '\n' + fn_text[cb - (len(fn_text[:cb]) - len(fn_text[:cb].rstrip(' \t'))):]
 
 
 class Asm:
